@@ -25,9 +25,9 @@ type LifeParams struct {
 	BlockReward int64
 	Silence     float64 // probability that an assigned provider does not complete when asked
 	Weights     map[string]int
-	BigTimeout  bool // allow timeout >= duration/2 (reaches the known give-up defect)
-	PoorSP      bool // one provider has almost no liquid balance (debt paths)
-	Drain       bool // at the end advance past every scheduled height
+	BigTimeout  bool  // allow timeout >= duration/2 (reaches the known give-up defect)
+	PoorSP      bool  // one provider has almost no liquid balance (debt paths)
+	Drain       bool  // at the end advance past every scheduled height
 	DrainCap    int64 // do not drain beyond this height (0 = no cap)
 	Params      func(p *nodetypes.Params)
 }
@@ -208,6 +208,10 @@ func (l *Life) Step() string {
 			l.Models = append(l.Models, m)
 			l.byData[did] = m
 			if o2, ok := w.Cur.Orders[id]; ok && o2.Status == OrderPending && r.Intn(3) > 0 {
+				if r.Intn(2) == 0 {
+					// picked up late: possibly later than one timeout interval after creation
+					w.Advance(int64(r.Intn(2 * int(t))))
+				}
 				w.Ready(g.Acct, id, g.Acct.Addr.String())
 			}
 		}
